@@ -131,6 +131,10 @@ fn join_nals(r: &mut Rng, nals: &[Vec<u8>], decorate: bool) -> Vec<u8> {
         out.push(0); // leading zero_byte
     }
     for n in nals {
+        if decorate && r.chance(1, 20) {
+            // two start codes back to back (an empty unit in between)
+            start_code(r, &mut out);
+        }
         start_code(r, &mut out);
         out.extend_from_slice(n);
     }
@@ -313,10 +317,35 @@ pub fn av1_frame(r: &mut Rng, kind: FrameKind, body_len: usize) -> av1::Av1Frame
     }
 }
 
+thread_local! {
+    /// percentage of VP9 key frames generated in the compact form (header ends with the colour
+    /// byte, nothing after it); only the call-acceptance checks switch this on
+    static VP9_COMPACT_PCT: std::cell::Cell<u64> = const { std::cell::Cell::new(0) };
+}
+
+pub fn set_vp9_compact_pct(p: u64) {
+    VP9_COMPACT_PCT.with(|c| c.set(p));
+}
+
 pub fn vp9_frame(r: &mut Rng, kind: FrameKind, body_len: usize) -> (Vec<u8>, Option<vp9::Vp9Fields>) {
     match kind {
         FrameKind::KeyCfg => {
-            let f = vp9::gen_fields(r);
+            let mut f = vp9::gen_fields(r);
+            if r.chance(VP9_COMPACT_PCT.with(|c| c.get()), 100) {
+                // marker, two (three) header bytes, width, height, one colour byte and nothing
+                // else: a key frame with a complete configuration; with the colour byte last, its
+                // bits 2..3 are colour-space bits, not a render-size announcement
+                f.render = None;
+                f.color_space = r.below(8) as u8;
+                let mut d = vec![0x49, 0x83, 0x42, (f.profile << 6) | (r.byte() & 0x0f), r.byte()];
+                if f.profile >= 2 {
+                    d.push(r.byte());
+                }
+                d.extend_from_slice(&vp9::varuint(f.width));
+                d.extend_from_slice(&vp9::varuint(f.height));
+                d.push(((f.bit_depth == 10) as u8) | ((f.color_space & 7) << 1) | ((f.transfer & 7) << 4) | ((f.matrix & 1) << 7));
+                return (d, None);
+            }
             (vp9::build_keyframe(&f, r, body_len), Some(f))
         }
         FrameKind::KeyNoCfg => {
@@ -485,7 +514,18 @@ pub fn audio_frame(r: &mut Rng, a: &AudioCfg, len: usize) -> Vec<u8> {
         opus_packet(r, len)
     } else {
         let tr = if r.chance(1, 10) { r.range(1, 9) as usize } else { 0 };
-        adts_frame(r, len, tr).0
+        // now and then a frame whose 13-bit length field needs its upper bits (2 KiB .. 8191)
+        let len = if r.chance(1, 40) { *r.pick(&[2041usize, 2042, 2048, 2049, 3000, 4089, 4096, 6000, 8182]) - if r.chance(1, 2) { 0 } else { r.usize_below(3) } } else { len };
+        let mut f = adts_frame(r, len, tr).0;
+        if tr == 0 && r.chance(1, 30) {
+            // bytes after the declared frame that themselves form one or two complete ADTS frames
+            for _ in 0..r.range(1, 2) {
+                let n = r.range(1, 24) as usize;
+                let more = adts_frame(r, n, 0).0;
+                f.extend_from_slice(&more);
+            }
+        }
+        f
     }
 }
 
